@@ -127,6 +127,23 @@ theorem C18_builtins_partial (F' : Facts) (name what : String) (h : F'.frozenOK 
     asListFor F' name what (.list true a o l c) = asListFor F' name what (.list false a o l c) := by
   simp [asListFor, h]
 
+theorem range2 : List.range 2 = [0, 1] := by decide
+theorem range3 : List.range 3 = [0, 1, 2] := by decide
+
+/-- **Lifted to the builtins themselves**: for every list-taking builtin of the model, once the table says it
+    accepts frozen lists, the whole call gives the same computation (result, effects, errors) on the frozen
+    wrapper as on the plain list — for all facts records, heaps and slices. -/
+theorem C18_builtins_lifted (F' : Facts) (name : String) (hn : name ∈ listBuiltins)
+    (h : F'.frozenOK name = true) (a o l c : Nat) :
+    callBuiltin F' name [(none, .list true a o l c)] = callBuiltin F' name [(none, .list false a o l c)] := by
+  simp only [listBuiltins, List.mem_cons, List.mem_nil_iff, or_false] at hn
+  rcases hn with rfl | rfl | rfl | rfl | rfl | rfl | rfl | rfl <;>
+    simp [callBuiltin, builtinSig, bindNative, bindNative.go, bindNative.fill, validate, hasTy, asListFor, h,
+      range2, range3, callBuiltin.lens]
+
+-- the hypothesis is satisfiable: a facts record in which `sorted` has been repaired
+example : ({ F with frozenOK := fun _ => true } : Facts).frozenOK "sorted" = true := rfl
+
 /-- … and one that the table marks as asserting `pyList` rejects the frozen wrapper, in every state. -/
 theorem C18_builtins_reject (F' : Facts) (name what : String) (h : F'.frozenOK name = false) (a o l c : Nat) (st : St) :
     ∃ e, (asListFor F' name what (.list true a o l c)).run st = .error e := by
